@@ -27,6 +27,10 @@ PROGRAMS = {
     'inc': 'include lib.asm\nmain:\n  addi x8, x8, LIBK\n  j libf\n',
     'defs': 'include GD32VF103.asm\nboot:\n  li t0, RCU_BASE_ADDR\n  sw t0, t0, 0\n',
     # a valid program with an intermediate constant of more decimal digits than str() converts (the -v listing prints every constant)
+    # every label is followed by a unique marker word, so its true offset can be read off the output without asking the assembler; shrinking items (li, call, align,
+    # compressible code) sit in front of the labels and one name (K) is a constant as well as a label
+    'marked': 'K = 5\nm0:\n  dw 0xA5A50000\n  li x9, 1\n  addi x8, x8, K\nm1:\n  dw 0xA5A50001\n  call m0\n  addi x8, x8, 1\nK:\nm2:\n  dw 0xA5A50002\n  db 7\n  align 8\nm3:\n  dw 0xA5A50003\n'
+              '  j m1\n  add x9, x9, x10\nm4:\nm5:\n  dw 0xA5A50004\n',
     'bigconst': 'BIG = 1 << 20000\nSMALL = BIG >> 19998\nstart:\n  addi x8, x8, SMALL\n  dw SMALL + 1\n',
 }
 LIB = 'LIBK = 7\nlibf:\n  addi x9, x9, 2\n'
@@ -198,6 +202,18 @@ def cli_case(ctx, case):
             problems.append('-l holds %r, expected %r' % (got[:6], want[:6]))
     elif now['labels'] != SENT['labels']:
         problems.append('l.txt modified although -l was not given')
+    if labp and case['prog'] == 'marked' and not problems:
+        # the label file against the output itself: label mI sits where marker word I is (m5 shares m4's address, K shares m2's)
+        table = {}
+        for ln in (now['labels'] or b'').decode('utf-8', 'replace').splitlines():
+            parts = ln.split()
+            if len(parts) == 2:
+                table[parts[0]] = int(parts[1], 16)
+        data = now['out'] or b''
+        where = {i: data.find((0xA5A50000 + i).to_bytes(4, 'little')) for i in range(5)}
+        want_tab = {'m0': where[0], 'm1': where[1], 'm2': where[2], 'K': where[2], 'm3': where[3], 'm4': where[4], 'm5': where[4]}
+        if table != want_tab:
+            problems.append('-l says %s, the marker words in the -o file are at %s' % (sorted(table.items()), sorted(want_tab.items())))
     if case['hex'] is not None:
         try:
             mem = D.read_ihex((now['hex'] or b'').decode('ascii'))
